@@ -31,7 +31,7 @@ ASSUMPTIONS = [
     "reference = itertools.groupby of CPython 3.12.1 on the same objects",
     "keys have reflexive equality (stated in the property); history is sequential (concurrent advancing is documented as unsafe)",
 ]
-PROBES = ("stale_group_advanced", "group_partially_consumed_then_skipped", "key_async", "groupby_exhausted",
+PROBES = ("none_key", "stale_group_advanced", "group_partially_consumed_then_skipped", "key_async", "groupby_exhausted",
           "same_key_reoccurs")
 
 
@@ -40,8 +40,13 @@ def gen(ch, cfg, prefix):
     g = Gen(ch, cfg, prefix)
     cfg.max_len = (10, 6, 3, 8)[ch.draw(4)]
     items = g.items()
-    sc.src = g.src(items)
     sc.key = g.keyfn()
+    if sc.key is not None and ch.chance(1, 4):
+        sc.key.kind = "divnone"  # a key function for which None is a legitimate key
+    elif sc.key is None and items and ch.chance(1, 4):
+        for _ in range(ch.between(1, 3)):
+            items[ch.draw(len(items))] = None  # None items are their own (equal) keys
+    sc.src = g.src(items)
     ops = []
     for _ in range(ch.between(1, 15)):
         ops.append((ch.weighted([2, 3]), ch.draw(3)))
@@ -155,6 +160,8 @@ def execute(st, ctx):
         stale = any(r[0] in ("stop", "item") and r[1] > 0 for r in rresults)
         if stale:
             out.probes["stale_group_advanced"] = 1
+        if any(r[0] == "key" and r[1] == ("NoneType", "None") for r in rresults):
+            out.probes["none_key"] = 1
         if any(r[0] == "gstop" for r in rresults):
             out.probes["groupby_exhausted"] = 1
         if sc.key is not None and sc.key.flavour != "def":
@@ -174,7 +181,7 @@ def execute(st, ctx):
     if sim.deadlock:
         out.violate("C16.deadlock", (), {})
     out.nontrivial = nontrivial
-    out.shape = tuple([(sc.src.flavour, tuple(i.key for i in sc.src.items),
+    out.shape = tuple([(sc.src.flavour, tuple(getattr(i, "key", None) for i in sc.src.items),
                         (sc.key.kind, sc.key.param, sc.key.flavour) if sc.key else None, tuple(sc.ops))
                        for sc, _, _ in tenants])
     if ctx.want_sample:
